@@ -56,6 +56,20 @@ OPT_FILES = {"pre_c.log": "log line\n", "pre_empty2/keep.me": "", "pre_dir/z.cfg
 NEW_FILES = ["n1.txt", "n2.dat", "nd1/in.txt", "pre_dir/new.txt", "pre_dir/nd/inner.txt", "pre_empty/new.txt", "nd1/deep/er/f.txt"]
 NEW_DIRS = ["nd1", "nd2", "nd1/deep/er", "pre_dir/nd", "pre_empty/nd/x/y", "nd2/a"]
 
+# second name universe: siblings where one name is a string prefix of another without a separator in between
+# (app.log / app.log.1 / app.log.bak, out / out.txt / out_dir, f / f1 / f10, d / d2 / d.txt / data.txt), case variants,
+# inside pre-existing directories and inside directories created during the execution
+PX_PRE_FILES = {"app.log": "L0\n", "app.log.1": "L1\n", "out.txt": "o", "f1": "1", "d.txt": "dtxt", "d/x": "dx", "d2/x": "d2x",
+                "README.md": "r", "pre_dir/app.log": "pl", "pre_dir/app.log.1": "pl1", "pre_dir/data.txt": "dt", "pre_dir/d/k.txt": "k",
+                "pre_dir/d2/k.txt": "k2"}
+PX_PRE_DIRS = ["d", "d2", "out_dir", "pre_dir", "pre_dir/d", "pre_dir/d2", "pre_empty"]
+PX_OPT_FILES = {"data.txt": "top", "out_dir/out": "oo", "f100": "100"}
+PX_NEW_FILES = ["app", "app.log.bak", "app.log.2", "app.log.1.gz", "out", "f", "f10", "f1.tmp", "d.tx", "readme.md", "Readme.md", "APP.LOG",
+                "pre_dir/app", "pre_dir/app.log.2", "pre_dir/dat", "pre_dir/data.txt.bak", "pre_dir/d/k", "out_dir/out.txt",
+                "nd/app.log", "nd/app.log.1", "nd/app.log.2", "nd/f1", "nd/f10", "nd/d.txt", "nd/d/x", "nd/d2/x"]
+PX_NEW_DIRS = ["out", "ou", "d3", "D", "pre_di", "pre_dir2", "pre_dir/d3", "pre_dir/da", "out_dir2", "nd", "nd2", "nd/d", "nd/d2", "nd/sub/sub2"]
+POOLS = {}
+
 OPEN_MODES = {"open-write": "w", "open-append": "a", "open-rplus": "r+", "open-excl": "x"}
 WRITERS = ["open-write", "open-append", "open-rplus", "open-excl", "io-open-w", "path-open-w", "path-open-a", "path-write_text", "path-write_bytes",
            "path-touch", "os-open-creat", "os-open-append", "os-open-trunc", "open-write-kw"]
@@ -67,6 +81,8 @@ READS = ["open-r"]
 EXTRAS = ["x-removedirs", "x-renames", "x-truncate", "x-symlink", "x-link"]
 ALL_OPS = WRITERS + MKDIRS + TWOARG + DELETES + READS
 PATH_METHOD = {o for o in ALL_OPS if o.startswith("path-")}
+POOLS["base"] = (PRE_FILES, PRE_DIRS, OPT_FILES, NEW_FILES, NEW_DIRS)
+POOLS["prefix"] = (PX_PRE_FILES, PX_PRE_DIRS, PX_OPT_FILES, PX_NEW_FILES, PX_NEW_DIRS)
 # API entry points folded into mechanism families for the witness keys (the exact entry point is kept in desc / counters)
 FAMILY = {
     "open-write": "open-write", "io-open-w": "open-write", "path-open-w": "open-write", "path-write_text": "open-write",
@@ -87,13 +103,17 @@ def floors(tier):
     classes = {f"op:{o}": 8 for o in ALL_OPS}
     classes.update({"target:preexisting-file": 200, "target:preexisting-dir": 200, "target:new": 200, "target:created-earlier": 100,
                     "len:1-3": 100, "len:4-8": 100, "len:9-12": 100, "blocked-by-isolation": 100, "spelling:bytes": 20, "spelling:path": 50,
-                    "spelling:dot": 20, "spelling:updown": 10, "case:clean": 100})
+                    "spelling:dot": 20, "spelling:updown": 10, "case:clean": 100,
+                    "spelling:via-sibling": 10, "spelling:dotmid": 10, "spelling:dslash": 10, "spelling:slash": 5,
+                    "names:prefix-related-siblings": 300, "names:created-name-is-prefix-of-preexisting": 100,
+                    "names:preexisting-name-is-prefix-of-created": 100, "names:prefix-related-inside-created-dir": 40,
+                    "names:same-path-different-spelling": 50, "names:case-variant": 15})
     return {"evals": 1500 if q else 15000, "distinct": 1000 if q else 10000, "classes": classes}
 
 
 def plan(tier, seed):
     q = tier == "quick"
-    chunks = [{"name": "directed", "seed": seed}]
+    chunks = [{"name": "directed", "seed": seed}, {"name": "directed-prefix", "seed": seed}]
     n, per = (16, 130) if q else (64, 330)
     for part in range(n):
         chunks.append({"name": "random", "seed": seed, "part": part, "n": per})
@@ -124,6 +144,12 @@ def _spell(p, how):
         return "pre_empty/../" + p
     if how == "updown-new":
         return "nd_missing/../" + p  # '..' through a directory that does not exist (yet)
+    if how == "via-sibling":
+        return "pre_dir/../" + p  # '..' through an existing sibling directory
+    if how == "dotmid":
+        return p.replace("/", "/./", 1) if "/" in p else "./././" + p
+    if how == "dslash":
+        return p.replace("/", "//", 1) if "/" in p else ".//" + p
     if how == "bytes":
         return os.fsencode(p)
     if how == "slash":
@@ -342,6 +368,39 @@ def _apply_break(name, fs_isolation):
             os.rename, os.replace = real_rename, real_replace
 
         cls._initialize_patches = init
+    elif name == "prefix-guard":  # "is it below something created?" decided by a bare string prefix (no separator)
+        orig_ctm2 = cls._create_tracked_method
+
+        def ctm2(self, original_func, *, record_arg_idx=None, record_dst_idx=None, forget_arg_idx=None):
+            inner = orig_ctm2(self, original_func, record_arg_idx=record_arg_idx, record_dst_idx=record_dst_idx, forget_arg_idx=forget_arg_idx)
+            if forget_arg_idx is None:
+                return inner
+            unguarded = orig_ctm2(self, original_func, record_arg_idx=record_arg_idx, record_dst_idx=record_dst_idx, forget_arg_idx=None)
+
+            def tracked(*args, **kwargs):
+                fp = self._get_arg(args, kwargs, forget_arg_idx)
+                if fp is not None:
+                    ap = self._abspath(fp)
+                    if ap not in self._created and any(ap.startswith(c) for c in self._created):
+                        return unguarded(*args, **kwargs)
+                return inner(*args, **kwargs)
+
+            return tracked
+
+        cls._create_tracked_method = ctm2
+    elif name == "prefix-cleanup":  # the exit cleanup also removes everything whose name merely starts with a created path
+        import glob
+
+        orig_exit2 = cls.__exit__
+
+        def exit2(self, *a):
+            extra = set()
+            for c in list(self._created):
+                extra.update(glob.glob(glob.escape(c) + "*"))
+            self._created |= extra
+            return orig_exit2(self, *a)
+
+        cls.__exit__ = exit2
     elif name == "no-permission-check":  # destructive operations on non-isolated paths are let through
         orig_ctm = cls._create_tracked_method
 
@@ -516,7 +575,7 @@ def _role(step, entry, path):
     return ":other-path"
 
 
-def _mechanism(case, log, path, mode):
+def _mechanism(case, log, path, mode, pre=()):
     """Attribute a damaged path to the operation that caused it, using the child's per-operation probes -> (key tail, step).
 
     deleted : the first operation after which `path` (or an ancestor, or the cwd itself) was in the isolation's created-set,
@@ -567,6 +626,10 @@ def _mechanism(case, log, path, mode):
         return "bytes-path", step  # str(bytes) (e.g. "b'x'") is what gets recorded and looked up: nothing is tracked properly
     if prefix == "forgotten-by-" and same:
         return "forgotten-by-rename-onto-itself", step  # record(dst) happens before forget(src): src == dst drops the entry
+    if mode == "survives" and not prefix and step.get("b") is not None and role.startswith(":dst-") and _norm(step["b"]) in pre:
+        # a created file/dir was renamed/moved/copied onto a pre-existing path: nothing refuses replacing a pre-existing
+        # path, and since only paths that did not exist before the call are recorded, the new content is not tracked
+        return "moved-onto-preexisting-path", step
     if fam.endswith("-by-keyword"):
         if mode == "survives":
             return prefix + "call-by-keyword", step  # _get_arg resolves the wrong keyword: the destination is never recorded
@@ -590,12 +653,13 @@ def _topmost(paths):
     return out
 
 
-def _make_tree(rng, sandbox):
-    files = dict(PRE_FILES)
-    for k, v in OPT_FILES.items():
+def _make_tree(rng, sandbox, flavor="base"):
+    pre_files, pre_dirs, opt_files, _, _ = POOLS[flavor]
+    files = dict(pre_files)
+    for k, v in opt_files.items():
         if rng.random() < 0.4:
             files[k] = v
-    for d in PRE_DIRS:
+    for d in pre_dirs:
         (sandbox / d).mkdir(parents=True, exist_ok=True)
     for rel, content in files.items():
         p = sandbox / rel
@@ -604,10 +668,11 @@ def _make_tree(rng, sandbox):
     return files
 
 
-def _gen_case(rng, length=None):
+def _gen_case(rng, length=None, flavor="base"):
     """A random operation sequence; a light model of what exists steers the argument choice (it need not be exact)."""
-    pre_files = list(PRE_FILES)
-    pre_dirs = list(PRE_DIRS)
+    PF, PD, _, NEW_FILES, NEW_DIRS = POOLS[flavor]  # noqa: N806
+    pre_files = list(PF)
+    pre_dirs = list(PD)
     created_files, created_dirs = [], []
     n = length or rng.choice([1, 1, 2, 2, 3, 3, 4, 5, 6, 7, 8, 9, 10, 11, 12])
     ops = []
@@ -660,13 +725,14 @@ def _gen_case(rng, length=None):
             step["sp"] = "path"
         else:
             r = rng.random()
-            step["sp"] = "str" if r < 0.62 else "path" if r < 0.78 else "dot" if r < 0.88 else "updown" if r < 0.93 else "bytes" if r < 0.98 else "slash"
+            step["sp"] = ("str" if r < 0.56 else "path" if r < 0.70 else "dot" if r < 0.78 else "updown" if r < 0.82 else "via-sibling" if r < 0.86
+                          else "dotmid" if r < 0.90 else "dslash" if r < 0.94 else "bytes" if r < 0.98 else "slash")
             if step["sp"] == "slash" and not (step["a"] in pre_dirs or step["a"] in NEW_DIRS):
                 step["sp"] = "str"
             if step["op"] in ("makedirs-exist_ok", "makedirs") and rng.random() < 0.04:
                 step["sp"] = "updown-new"
         ops.append(step)
-    return {"ops": ops}
+    return {"ops": ops, "flavor": flavor}
 
 
 def _run_batch(ctx, cases, tag, clear_cache=True):
@@ -679,7 +745,7 @@ def _run_batch(ctx, cases, tag, clear_cache=True):
         case["dir"] = f"case_{i:04d}"
         sb = batch / case["dir"]
         sb.mkdir()
-        _make_tree(random.Random(case.get("tree_seed", rng.randrange(2**31))), sb)
+        _make_tree(random.Random(case.get("tree_seed", rng.randrange(2**31))), sb, case.get("flavor", "base"))
         before.append(_snapshot(sb))
     spec_f, out_f = batch / "spec.json", batch / "out.json"
     spec_f.write_text(json.dumps({"cases": cases, "clear_cache": clear_cache}))
@@ -702,6 +768,42 @@ def _run_batch(ctx, cases, tag, clear_cache=True):
     return out
 
 
+def _name_classes(ops, log, snap0):
+    """Classes describing how the names used by the *successful* operations relate to each other and to pre-existing names."""
+    out = set()
+    used, raw = set(), {}
+    for s, e in zip(ops, log):
+        for p in (s.get("a"), s.get("b")):
+            if p is None:
+                continue
+            n = _norm(p)
+            raw.setdefault(n, set()).add((s.get("sp", "str"), p))
+            if e.get("res") == "ok":
+                used.add(n)
+    pre = {p for p in snap0 if not p.startswith("<")}
+    created = {p for e in log for p in e.get("appeared", [])}
+    for n in used:
+        parent, base = os.path.split(n)
+        for other in (pre | used) - {n}:
+            op_, ob = os.path.split(other)
+            if op_ != parent or ob == base:
+                continue
+            if ob.lower() == base.lower():
+                out.add("names:case-variant")
+            if ob.startswith(base) or base.startswith(ob):
+                out.add("names:prefix-related-siblings")
+                short, long_ = (n, other) if len(base) < len(ob) else (other, n)
+                if short in created and long_ in pre:
+                    out.add("names:created-name-is-prefix-of-preexisting")
+                if short in pre and long_ in created:
+                    out.add("names:preexisting-name-is-prefix-of-created")
+                if short in created and long_ in created and parent and any(parent == c or parent.startswith(c + "/") for c in created):
+                    out.add("names:prefix-related-inside-created-dir")
+    if any(len({sp for sp, _ in v}) > 1 for v in raw.values()):
+        out.add("names:same-path-different-spelling")
+    return sorted(out)
+
+
 def _judge(ctx, case, res, snap0, snap1, extras_only=False):
     """Apply the oracle to one executed case."""
     log = res["log"]
@@ -722,6 +824,7 @@ def _judge(ctx, case, res, snap0, snap1, extras_only=False):
         if e.get("res") == "PermissionError" and "non-isolated" in e.get("msg", ""):
             cls.append("blocked-by-isolation")
         cls.append(f"spelling:{s.get('sp', 'str')}")
+    cls.extend(_name_classes(ops, log, snap0))
     L = len(ops)
     cls.append("len:1-3" if L <= 3 else "len:4-8" if L <= 8 else "len:9-12")
     sig = [(s["op"], e.get("pre_a"), e.get("pre_b"), e.get("res") == "ok") for s, e in zip(ops, log)]
@@ -742,12 +845,12 @@ def _judge(ctx, case, res, snap0, snap1, extras_only=False):
         mech, step = _mechanism(case, log, p, "modified")
         findings.append((f"preexisting-modified:{mech}", f"pre-existing '{p}' changed: {snap0[p][0]} {snap0[p][3]!r} -> {snap1[p][0]} {snap1[p][3]!r}", step))
     for p in survivors:
-        mech, step = _mechanism(case, log, p, "survives")
+        mech, step = _mechanism(case, log, p, "survives", pre=set(snap0))
         findings.append((f"created-survives:{mech}", f"'{p}' ({snap1[p][0]}) was created during the execution and still exists afterwards", step))
     if modebits:
         ctx.anomaly("mode-bits-of-preexisting-path-changed")
     ctx.ok(cls=cls + (["case:clean"] if not findings else ["case:violating"]), distinct=sig if n_ok else None)
-    replay = {"ops": ops, "tree_seed": case.get("tree_seed"), "log": [{k: e.get(k) for k in ("res", "pre_a", "pre_b", "recorded")} for e in log]}
+    replay = {"ops": ops, "tree_seed": case.get("tree_seed"), "flavor": case.get("flavor", "base"), "log": [{k: e.get(k) for k in ("res", "pre_a", "pre_b", "recorded")} for e in log]}
     for key, desc, step in findings:
         if step is not None:
             by = ctx.extra.setdefault("findings_by_entry_point", {})
@@ -825,6 +928,9 @@ def _directed_cases():
     add(("mkdir", "nd2"), ("copytree-exist_ok", "nd2", "nd2"))
     add(("mkdir", "nd1"), ("rename", "nd1", "pre_empty"))
     add(("mkdir", "nd1"), ("path-replace", "nd1", "pre_empty", "path"))
+    # created directory (with created content) renamed onto a pre-existing empty directory
+    add(("mkdir", "nd1"), ("open-write", "nd1/in.txt"), ("rename", "nd1", "pre_empty"))
+    add(("mkdir", "nd1"), ("open-write", "nd1/in.txt"), ("path-replace", "nd1", "pre_empty", "path"))
     # created content below created directories, removed in various orders
     add(("makedirs", "nd1/deep/er"), ("open-write", "nd1/deep/er/f.txt"), ("open-write", "nd1/in.txt"))
     add(("mkdir", "nd1"), ("open-write", "nd1/in.txt"), ("rename", "nd1", "nd2"))
@@ -833,7 +939,102 @@ def _directed_cases():
     return cases
 
 
+def _directed_prefix_cases():
+    """Siblings whose names are string prefixes of each other (no separator in between), in every role."""
+    cases = []
+
+    def add(*steps):
+        cases.append({"ops": [dict(zip(("op", "a", "b", "sp"), s + (None,) * (4 - len(s)))) for s in steps], "tree_seed": 11, "flavor": "prefix"})
+
+    def sp_of(op):
+        return "path" if op in PATH_METHOD else "str"
+
+    nd = [("mkdir", "nd"), ("open-write", "nd/f1"), ("open-write", "nd/f10")]
+    nd_rev = [("mkdir", "nd"), ("open-write", "nd/f10"), ("open-write", "nd/f1")]
+    # writers: created name is a prefix of a pre-existing one and vice versa, top level and inside a pre-existing dir
+    for op in WRITERS:
+        for name in ("app", "app.log.bak", "out", "f", "f10", "pre_dir/app", "pre_dir/app.log.2", "pre_dir/dat", "readme.md"):
+            add((op, name, None, sp_of(op)))
+        add((op, "f10", None, sp_of(op)), (op, "f", None, sp_of(op)), (op, "f1.tmp", None, sp_of(op)))
+        add(("mkdir", "nd"), (op, "nd/app.log.1", None, sp_of(op)), (op, "nd/app.log", None, sp_of(op)))
+    for op in MKDIRS:
+        for name in ("out", "ou", "d3", "D", "pre_di", "pre_dir2", "pre_dir/d3", "pre_dir/da"):
+            add((op, name, None, sp_of(op)))
+        add(("mkdir", "nd"), ("mkdir", "nd/d2"), (op, "nd/d", None, sp_of(op)), ("open-write", "nd/d.txt"))
+        add((op, "out", None, sp_of(op)), ("open-write", "out/in"), ("open-write", "out_dir/new"), ("open-write", "out_dir2"))
+    # deletions of the shorter / the longer name, created and pre-existing, both creation orders
+    for op in DELETES:
+        isdir = op in ("rmdir", "path-rmdir", "rmtree")
+        if isdir:
+            dirs = [("mkdir", "nd"), ("mkdir", "nd/d"), ("mkdir", "nd/d2"), ("open-write", "nd/d.txt")]
+            add(*dirs, (op, "nd/d", None, sp_of(op)))
+            add(*dirs, (op, "nd/d2", None, sp_of(op)))
+            add(*dirs, ("open-write", "nd/d2/x"), (op, "nd/d", None, sp_of(op)))
+            add(("mkdir", "d3"), (op, "d", None, sp_of(op)), (op, "d2", None, sp_of(op)), (op, "d3", None, sp_of(op)))
+            add(("mkdir", "ou"), (op, "out_dir", None, sp_of(op)), (op, "ou", None, sp_of(op)))
+            add(("mkdir", "out"), (op, "out_dir", None, sp_of(op)), (op, "out", None, sp_of(op)))
+            add(("mkdir", "pre_dir/da"), (op, "pre_dir/d", None, sp_of(op)), (op, "pre_dir/d2", None, sp_of(op)))
+        else:
+            add(*nd, (op, "nd/f1", None, sp_of(op)))
+            add(*nd, (op, "nd/f10", None, sp_of(op)))
+            add(*nd_rev, (op, "nd/f1", None, sp_of(op)))
+            add(("open-write", "f"), (op, "f1", None, sp_of(op)), (op, "f", None, sp_of(op)))
+            add(("open-write", "f10"), (op, "f1", None, sp_of(op)), (op, "f10", None, sp_of(op)))
+            add(("open-write", "app"), (op, "app.log", None, sp_of(op)), (op, "app.log.1", None, sp_of(op)))
+            add(("open-write", "app.log.bak"), (op, "app.log", None, sp_of(op)))
+            add(("open-write", "out"), (op, "out.txt", None, sp_of(op)))
+            add(("open-write", "pre_dir/dat"), (op, "pre_dir/data.txt", None, sp_of(op)))
+    # rename / replace / move / copy between prefix-related names
+    for op in TWOARG:
+        q = sp_of(op)
+        if op.startswith("copytree"):
+            dirs = [("mkdir", "nd"), ("mkdir", "nd/d"), ("open-write", "nd/d/x"), ("mkdir", "nd/d2")]
+            add(*dirs, (op, "nd/d", "nd/d3", q))
+            add(*dirs, (op, "nd/d", "d3", q))
+            add(("mkdir", "ou"), (op, "ou", "out", q))
+            add((op, "d", "d3", q), (op, "d2", "nd", q))
+            continue
+        add(*nd, (op, "nd/f1", "nd/f100", q))
+        add(*nd, (op, "nd/f10", "nd/f", q))
+        add(*nd, (op, "nd/f10", "nd/f1", q))
+        add(*nd_rev, (op, "nd/f1", "nd/f10", q))
+        add(("open-write", "f"), (op, "f", "f10", q))
+        add(("open-write", "f10"), (op, "f10", "f", q))
+        add(("open-write", "app"), (op, "app", "app.log.bak", q), (op, "app.log", "app.log.2", q))
+        add(("open-write", "out"), (op, "out", "out_dir", q))
+        add(("open-write", "out"), (op, "out", "out_dir2", q), (op, "out_dir2", "ou", q))
+        add(("mkdir", "ou"), ("open-write", "ou/in"), (op, "ou", "out", q))
+        add(("open-write", "pre_dir/app"), (op, "pre_dir/app", "pre_dir/app.log.2", q), (op, "pre_dir/app.log.1", "pre_dir/app.log.3", q))
+    # log rotation chains: x.1 -> x.2, x -> x.1, new x  (inside a created dir, inside a pre-existing dir, at top level)
+    for ren in ("rename", "replace", "move", "path-rename", "path-replace"):
+        q = sp_of(ren)
+        add(("mkdir", "nd"), ("open-write", "nd/app.log"), ("open-write", "nd/app.log.1"), (ren, "nd/app.log.1", "nd/app.log.2", q),
+            (ren, "nd/app.log", "nd/app.log.1", q), ("open-write", "nd/app.log"))
+        add(("open-write", "pre_dir/app.log.2"), (ren, "pre_dir/app.log.2", "pre_dir/app.log.3", q), (ren, "pre_dir/app.log.1", "pre_dir/app.log.2", q),
+            (ren, "pre_dir/app.log", "pre_dir/app.log.1", q), ("open-write", "pre_dir/app.log.0"))
+        add((ren, "app.log.1", "app.log.2", q), (ren, "app.log", "app.log.1", q), ("open-excl", "app.log.2"), (ren, "app.log.2", "app.log.3", q))
+    # names that normalise to the same path, used together
+    for a_sp, b_sp in (("str", "dot"), ("dot", "dotmid"), ("dslash", "str"), ("via-sibling", "str"), ("updown", "dslash"), ("path", "via-sibling"), ("bytes", "str")):
+        add(("open-write", "f10", None, a_sp), ("remove", "f10", None, b_sp))
+        add(("mkdir", "nd", None, a_sp), ("open-write", "nd/f1", None, b_sp), ("rename", "nd/f1", "nd/f10", a_sp), ("remove", "nd/f10", None, b_sp))
+        add(("open-write", "pre_dir/dat", None, a_sp), ("copy", "pre_dir/dat", "pre_dir/da.bak", b_sp), ("open-append", "pre_dir/dat", None, b_sp))
+        add(("open-write", "out", None, a_sp), ("remove", "out.txt", None, b_sp), ("rmtree", "out_dir", None, b_sp))
+    for sl in ("slash",):
+        add(("mkdir", "d3", None, sl), ("rmdir", "d3"), ("makedirs", "out", None, sl), ("rmtree", "out_dir", None, sl))
+        add(("mkdir", "ou"), ("rmtree", "ou", None, sl), ("rmtree", "out_dir", None, sl))
+    # case variants
+    add(("open-write", "readme.md"), ("remove", "README.md"), ("remove", "readme.md"))
+    add(("open-write", "Readme.md"), ("rename", "Readme.md", "readme.md"), ("remove", "README.md"))
+    add(("open-write", "APP.LOG"), ("remove", "app.log"), ("mkdir", "D"), ("rmtree", "d"), ("rmdir", "D"))
+    add(("mkdir", "D"), ("open-write", "D/x"), ("rmtree", "d"))
+    return cases
+
+
 def run_chunk(spec, ctx):
+    if spec["name"] == "directed-prefix":
+        for case, res, s0, s1 in _run_batch(ctx, _directed_prefix_cases(), "dprefix") or []:
+            _judge(ctx, case, res, s0, s1)
+        return
     if spec["name"] == "directed":
         cases = _directed_cases()
         for case, res, s0, s1 in _run_batch(ctx, cases, "directed") or []:
@@ -857,7 +1058,7 @@ def run_chunk(spec, ctx):
     rng = random.Random((spec["seed"] * 1000003 + spec["part"]) * 29 + 29)
     cases = []
     for _ in range(spec["n"]):
-        c = _gen_case(rng)
+        c = _gen_case(rng, flavor="prefix" if rng.random() < 0.5 else "base")
         c["tree_seed"] = rng.randrange(2**31)
         cases.append(c)
     for case, res, s0, s1 in _run_batch(ctx, cases, f"r{spec['part']}") or []:
@@ -865,7 +1066,7 @@ def run_chunk(spec, ctx):
 
 
 def replay(w, ctx):
-    case = {"ops": w["case"]["ops"], "tree_seed": w["case"].get("tree_seed", 7)}
+    case = {"ops": w["case"]["ops"], "tree_seed": w["case"].get("tree_seed", 7), "flavor": w["case"].get("flavor", "base")}
     for c, res, s0, s1 in _run_batch(ctx, [case], "replay") or []:
         _judge(ctx, c, res, s0, s1)
 
